@@ -127,6 +127,34 @@ def rule_constraint_currents(ck, rid="C18.order"):
     ck.require(ok, rid, f, c, ok="for the requested constraints (all by default)", bad="the requested constraint ids are not what is passed on", sink="cc-constraints")
     # name/row pairing
     e = r.expr
+    if isinstance(e, ast.Name):
+        # a dict filled in a loop over the network's constraint list with a manual row counter ("filtered enumerate")
+        built = fl._loop_built(e.id, next(iter(fl.defs_at(r, e.id))), r) if len(fl.defs_at(r, e.id)) == 1 else None
+        if isinstance(built, ast.DictComp) and len(built.generators) == 1 and isinstance(built.value, ast.Subscript) and isinstance(built.value.slice, ast.Name):
+            g = built.generators[0]
+            k = built.value.slice.id
+            var = dotted(g.target)
+            lp = [n_ for n_ in fl.cfg.nodes if n_.kind == "for" and canon(n_.stmt.iter) == canon(g.iter)]
+            reg = fl.cfg.loop_region(lp[0]) if lp else set()
+            stores = [n_ for n_ in reg if n_.kind == "stmt" and isinstance(n_.stmt, ast.Assign) and isinstance(n_.stmt.targets[0], ast.Subscript) and dotted(n_.stmt.targets[0].value) == e.id]
+            incs = [n_ for n_ in reg if n_.kind == "stmt" and isinstance(n_.stmt, ast.AugAssign) and dotted(n_.stmt.target) == k]
+            init = [d for d in fl.cfg.nodes if d.kind == "stmt" and isinstance(d.stmt, ast.Assign) and any(dotted(t) == k for t in d.stmt.targets)]
+            counter_ok = len(stores) == 1 and len(incs) == 1 and isinstance(incs[0].stmt.op, ast.Add) and canon(incs[0].stmt.value) == "1" and len(init) == 1 \
+                and canon(init[0].stmt.value) == "0" and lp and fl.cfg.dominates(init[0], lp[0]) and fl.cfg.dominates(stores[0], incs[0]) \
+                and {(t.id, lab) for t, lab in fl.cfg.edges_dominating(stores[0])} == {(t.id, lab) for t, lab in fl.cfg.edges_dominating(incs[0])}
+            net_order = canon(fl.expand(g.iter, r)) == "sim.network.constraint_index" and dotted(built.key) == var
+            member = False
+            for cnd in g.ifs:
+                for a_, t_ in __import__("sa.flow", fromlist=["edge_facts"]).edge_facts(cnd, True):
+                    c_ = cmp_norm(a_, t_)
+                    if c_ and c_[1] == "in" and canon(c_[0]) == var and set(leaves(fl.expand(c_[2], r))) <= {req, "sim.network.constraint_index"}:
+                        member = True
+            rows_ok = call_name(_strip_abs(fl.expand(built.value.value, r))) == "constraint_current"
+            ck.require(counter_ok, rid, f, built.value, ok="row counter starts at 0 and advances by one with every stored entry", bad="the manual row counter does not advance exactly once per stored entry", sink="pair-iter")
+            ck.require(rows_ok, rid, f, built.value.value, ok="rows are those returned by constraint_current", bad="the rows paired with names are not constraint_current's result", sink="pair-rows")
+            ck.require(net_order and member and len(g.ifs) >= 1, rid, f, g.iter, ok="names = network.constraint_index filtered by membership: the order constraint_current returns rows in",
+                       bad="row names must follow the network's constraint order (filter of network.constraint_index by the requested ids)", sink="pair-names-network-order")
+            return
     if not isinstance(e, ast.DictComp) or len(e.generators) != 1:
         raise AnalysisError(f"constraint_currents: result construction not recognised: {src(e)}")
     g = e.generators[0]
@@ -197,7 +225,8 @@ def rule_proportions(ck, rid="C18.proportion"):
                 ck.require(session_sum(side, attr), rid, f, side, ok=f"sum of ev.{attr} over all sessions", bad=f"must sum ev.{attr} over sim.ev_history.values()", sink=f"ratio-{attr}")
     f, fl, r, e = single_return(ck, "proportion_of_demands_met")
     thr = f.params[1]
-    ok = isinstance(e, ast.BinOp) and isinstance(e.op, ast.Div) and canon(e.right) == "len(sim.ev_history)"
+    ok = isinstance(e, ast.BinOp) and isinstance(e.op, ast.Div) and canon(e.right) in ("len(sim.ev_history)", "len(sim.ev_history.values())", "len(list(sim.ev_history.values()))",
+                                                                                       "len(sim.ev_history.keys())", "len(sim.ev_history.items())")
     cnt_ok = False
     if ok and isinstance(e.left, ast.Call) and call_name(e.left) in ("sum", "len") and e.left.args:
         g = e.left.args[0]
@@ -306,6 +335,9 @@ def rule_datetimes(ck, rid="C18.datetimes"):
 
 
 def run(ck):
+    # names are attached in network order: constraint_current must return its rows in network order too (shared with C12)
+    from .c12 import rule_subset
+    rule_subset(ck)
     rule_current_power(ck)
     rule_constraint_currents(ck)
     rule_energy_totals(ck)
